@@ -1,6 +1,7 @@
 package c02
 
 import (
+	"strings"
 	"sort"
 	"encoding/json"
 	"fmt"
@@ -485,6 +486,22 @@ func TestLiteralListsThatJoinAlike(t *testing.T) {
 		}
 	}
 	evid.Exhaustive("pairs of literal lists whose joined texts coincide", n)
+}
+
+// TestEvaluationOrderOfComposites: sgen.OrderCases - every composite form with a probed operand in every child position,
+// alone and next to a failing sibling - under the v1 interpreter: children are evaluated in text order, each once, and a
+// failure ends the statement with exactly the earlier siblings evaluated.
+func TestEvaluationOrderOfComposites(t *testing.T) {
+	cases := sgen.OrderCases()
+	var names []string
+	for k := range cases {
+		names = append(names, k)
+	}
+	sort.Strings(names)
+	for _, name := range names {
+		judge(t, "order", sem.NewCase(gen.FixAll(gen.CloneProg(cases[name]))), "order/"+name, "evaluation-order/"+strings.SplitN(name, "/", 2)[0])
+	}
+	evid.Exhaustive("composite form x probed child positions x failing sibling (v1)", len(names))
 }
 
 // TestSelfUpdateForms: `t = t op e`, `t = e op t`, `t = t op t` and `t op= e` evaluate their operands like any other
